@@ -247,7 +247,10 @@ func bringReused(w *hz.World, ps hz.PeerSpec, st string, hold uint16) *sess {
 	}
 	mon := w.MustAddPeer(ps)
 	c1 := w.WaitOut(1, time.Minute)
-	if c1 == nil || !c1.Handshake(ps.RemoteAS, hold, remoteIDu) {
+	// the first session negotiates another hold time than the one under test (what an
+	// fsm object remembers from it must not matter)
+	firstHold := []uint16{hold, 30, 0, 3}[mix(w.O.Seed)%4]
+	if c1 == nil || !c1.Handshake(ps.RemoteAS, firstHold, remoteIDu) {
 		w.Violate("reuse setup: first outbound session failed")
 		return nil
 	}
